@@ -19,12 +19,12 @@ theorem skipPre_apply (interp : Nat → Val → Option Nat) (s : Stk) (op : List
     s.apply interp op = .ok (s, {}) := by
   cases op <;> simp only [skipPre, Bool.or_eq_true] at h <;> simp only [Stk.apply]
   case push vs => simp [h]
-  case pop => rcases h with h | h <;> simp [h]
+  case pop => simp [h]
   case insert x i => rcases h with h | h <;> simp [h]
   case remove i => simp [h]
   case replace x i => rcases h with h | h <;> simp [h]
   case swap i j => simp [h]
-  case reverse => rcases h with h | h <;> simp [h]
+  case reverse => simp [h]
   case reset => simp [h]
 
 theorem planFirst_atomic (interp : Nat → Val → Option Nat) (op : ListOp) :
